@@ -76,6 +76,7 @@ func next(kind string) uint64 {
 	r := rp.Nondet[ni]
 	ni++
 	if r.Kind != kind {
+		guideNote()
 		fmt.Printf("ZV: replay divergence: want %s got %s (#%d)\n", kind, r.Kind, ni-1)
 		os.Exit(6)
 	}
@@ -132,6 +133,14 @@ func EndLine() string {
 	return fmt.Sprintf("ZV: END asserts=%d nondet=%d choices=%d", nAsserts, ni, ci)
 }
 
+// guideNote tells the translator validation whether a guided native run really followed the
+// engine's schedule (only then are its clock instants the ones the model assigned to each read).
+func guideNote() {
+	if schedOn && (guideDev || guidePos != len(rp.Schedule)) {
+		fmt.Println("ZV: GUIDE deviated")
+	}
+}
+
 func Assert(c bool, id string) {
 	nAsserts++
 	if !c {
@@ -139,6 +148,7 @@ func Assert(c bool, id string) {
 			otherFails[id] = true
 			abortSchedule()
 		}
+		guideNote()
 		fmt.Printf("ZV: ASSERT-FAIL %s\n", id)
 		os.Exit(3)
 	}
@@ -152,6 +162,7 @@ func AssertUnless(known, c bool, id string) {
 			otherFails[id] = true
 			abortSchedule()
 		}
+		guideNote()
 		fmt.Printf("ZV: ASSERT-FAIL %s known=%v\n", id, known)
 		os.Exit(3)
 	}
@@ -582,6 +593,7 @@ var (
 	dfsTrace    [][2]int
 	dfsPos      int
 	guidePos    int
+	guideDev    bool // the native run could not follow the engine's schedule decision by decision
 	otherFails  = map[string]bool{}
 	parIter     int
 )
@@ -627,13 +639,20 @@ func npick(cur *nthread, curRunnable bool) *nthread {
 	// different) decision points allow; the depth-first search explores the deviations.
 	if guidePos < len(rp.Schedule) {
 		want := rp.Schedule[guidePos]
+		found := false
 		for i, t := range en {
 			if t.id == want {
 				en[0], en[i] = en[i], en[0]
 				guidePos++
+				found = true
 				break
 			}
 		}
+		if !found {
+			guideDev = true // the native decision points differ from the engine's here
+		}
+	} else {
+		guideDev = true
 	}
 	return en[dfsChoose(len(en))]
 }
@@ -802,7 +821,7 @@ func RunSchedules(harness func()) {
 	for {
 		runs++
 		resetInputs()
-		dfsTrace, dfsPos, nabort, nactive, guidePos = nil, 0, false, false, 0
+		dfsTrace, dfsPos, nabort, nactive, guidePos, guideDev = nil, 0, false, false, 0, false
 		func() {
 			defer func() {
 				if r := recover(); r != nil {
